@@ -103,5 +103,31 @@ def fill(claim, na):
           "mapping(I) == reduced[I] then follows by a recorded induction; it is not itself decided.",
           "Positions ascending; rows cover consecutive retained pairs.",
           "DESIGN.md 3/C07")
-    for pid in ["C02", "C08", "C09", "C10", "C12", "C14", "C18"]:
+    claim("C02", "other", "work-stack rule over the recursion's transfer function + detector return-interval rules (idiom table) + slot/link resolution",
+          "Decides the structural part for all inputs: size gate len > t2; straightness gate SMAPE >= t1 (R2 < t1) of the endpoint "
+          "line on the popped range; children (left,k+1),(k+1,right) with k = detector(pt)+left; one retained absolute index per "
+          "step; sort before return; None tested before use; each of the five detectors bound to the slot returns None or an "
+          "index in [0, len-2] (interior argmax/argmin offsets, padded argmax, candidate range, dependency contract read from the "
+          "installed uts source); all five entry points link. Termination follows (children strictly shorter). The union formula "
+          "itself is a recorded induction over these facts, not decided.",
+          "t2 >= detector minimum; uts.gradient/peak_detection contracts as tabled.",
+          "DESIGN.md 3/C02")
+    claim("C09", "other", "normal-form equality of each detector's criterion + interval idioms + loop-variant idioms (strict progress, visited state)",
+          "Decides the structural part for all inputs: curvature maximises |csd|/(1+cfd^2)^(3/2) over interior points; the DFDT "
+          "step is the interior argmin of |g - isodata(g)| and the refinement recurrence is the stated one; Menger maximises the "
+          "curvature of consecutive triples with zero padding; the L-method minimises the stated length-weighted two-line error "
+          "(4 Fit x Cost cases) over candidates 2..n-3 and forwards `fit`; the DFDT loop has a strict-progress variant and the "
+          "L-method loop a visited-state variant covering every loop-carried variable.",
+          "Dependency contracts for uts.gradient / isodata; optimality over competing indices follows from argmax/argmin and is "
+          "not separately decided.",
+          "DESIGN.md 3/C09")
+    claim("C18", "other", "E1 link + orientation polynomial identity + guard normalisation of the popping predicates + dominance of stack subscripts by a length test",
+          "Decides the structural part for all inputs: the three scans link; _ccw is the cross product (b-a)x(c-a); the lower "
+          "chain pops exactly orient <= 0 and the upper chain exactly orient >= 0, offering every index once in ascending order "
+          "and pushing after the pops; every stack[-k] in a popping loop is dominated by len(stack) >= k; graham_scan removes "
+          "every counter-clockwise turn of the points sorted clockwise around the lowest-leftmost point (nearer first on ties). "
+          "Equality with the brute-force hull is not decided.",
+          "x-sorted input for the chains; real-number orientation.",
+          "DESIGN.md 3/C18")
+    for pid in ["C08", "C10", "C12", "C14"]:
         na(pid, PENDING)
